@@ -321,6 +321,50 @@ func c10R1R2(c *Ctx, p *Prog) {
 		}
 	}
 	und := ""
+	// `for …; ix >= 0 && cnt < 3; …`: the cap is part of the loop test — every path from the loop header to the
+	// comparison of the next entry knows the running count is below 3
+	capTestedByLoopTest := true
+	nToBody := 0
+	enumBlockPaths(hdr, func(from, to *ssa.BasicBlock) bool { return to == cmp.Block() || to == hdr }, 20000, func(bp *bpath) {
+		if bp.End != "arrive" || bp.Arrive != cmp.Block() {
+			return
+		}
+		nToBody++
+		u := int64(1 << 30)
+		for _, pc := range bp.Conds {
+			bo, ok := pc.V.(*ssa.BinOp)
+			if !ok {
+				continue
+			}
+			x, y, op := stripConv(bo.X), stripConv(bo.Y), bo.Op
+			if y == ssa.Value(cnt) {
+				x, y, op = y, x, swapCmp(op)
+			}
+			k, isc := constOf(y)
+			if x != ssa.Value(cnt) || !isc {
+				continue
+			}
+			if !pc.True {
+				op = negCmp(op)
+			}
+			switch op {
+			case token.LSS:
+				u = min(u, k-1)
+			case token.LEQ:
+				u = min(u, k)
+			case token.NEQ:
+				if k == 3 {
+					u = min(u, 2)
+				}
+			}
+		}
+		if u > 2 {
+			capTestedByLoopTest = false
+		}
+	})
+	if nToBody == 0 || cmp.Block() == hdr {
+		capTestedByLoopTest = false
+	}
 	complete := enumBlockPaths(hdr, func(from, to *ssa.BasicBlock) bool { return to == hdr }, 20000, func(bp *bpath) {
 		if bp.End == "panic" {
 			return
@@ -332,6 +376,7 @@ func c10R1R2(c *Ctx, p *Prog) {
 			}
 		}
 		lb, ub := int64(-1<<30), int64(1<<30)
+		lbP, ubP := int64(-1<<30), int64(1<<30)
 		exitPath := false
 		for i, pc := range bp.Conds {
 			if pc.V == ssa.Value(cmp) {
@@ -347,10 +392,10 @@ func c10R1R2(c *Ctx, p *Prog) {
 				continue
 			}
 			x, y, op := stripConv(bo.X), stripConv(bo.Y), bo.Op
-			if y == ssa.Value(inc) {
+			if y == ssa.Value(inc) || y == ssa.Value(cnt) {
 				x, y, op = y, x, swapCmp(op)
 			}
-			if x != ssa.Value(inc) {
+			if x != ssa.Value(inc) && x != ssa.Value(cnt) {
 				continue
 			}
 			k, isc := constOf(y)
@@ -360,20 +405,24 @@ func c10R1R2(c *Ctx, p *Prog) {
 			if !pc.True {
 				op = negCmp(op)
 			}
+			l, u := &lb, &ub
+			if x == ssa.Value(cnt) {
+				l, u = &lbP, &ubP // the running count at the top of this iteration
+			}
 			switch op {
 			case token.GEQ:
-				lb = max(lb, k)
+				*l = max(*l, k)
 			case token.GTR:
-				lb = max(lb, k+1)
+				*l = max(*l, k+1)
 			case token.EQL:
-				lb, ub = max(lb, k), min(ub, k)
+				*l, *u = max(*l, k), min(*u, k)
 			case token.LSS:
-				ub = min(ub, k-1)
+				*u = min(*u, k-1)
 			case token.LEQ:
-				ub = min(ub, k)
+				*u = min(*u, k)
 			case token.NEQ:
 				if k == 3 {
-					ub = min(ub, 2) // counts by one from below
+					*u = min(*u, 2) // counts by one from below
 				}
 			}
 		}
@@ -411,12 +460,12 @@ func c10R1R2(c *Ctx, p *Prog) {
 				if lb < 3 {
 					fail("Threefold#returns-at-three", fmt.Sprintf("the scan stops after a match although the count is only known to be >= %d: a third occurrence further back is never counted", max(lb, 2)))
 				}
-			} else if !exitPath {
+			} else if !exitPath && lbP < 3 {
 				fail("Threefold#returns-count", "the scan is abandoned before index 0 on a path without a match")
 			}
 		} else if incOn {
 			vs["Threefold#returns-at-three"].n++
-			if ub > 2 {
+			if ub > 2 && !capTestedByLoopTest {
 				fail("Threefold#returns-at-three", "the scan continues after a match without knowing the count is below 3: the result is not capped at three")
 			}
 		}
